@@ -1190,6 +1190,41 @@ class EqEval:
         self.need = None
         self.depth = 0
 
+    def _compares_transformed(self, clo):
+        """the closure `|(x, y)| cmp(f(x), f(y), ..)` hands its comparison something computed from the paired elements (a method of the float
+        type, a cast, arithmetic) instead of the elements themselves"""
+        clo = strip(clo)
+        if not isinstance(clo, dict) or clo.get("k") != "Closure":
+            return False
+        cb = self.facts.body(clo["closure"])
+        if cb is None:
+            return False
+        pvars = {v for p_ in self.facts.params(cb) if p_.get("pat") for v, _, _, _ in F.pat_bindings(p_["pat"])}
+        fl = self.facts.float or "f64"
+        for x in walk(self.facts.root(cb)):
+            if x.get("k") == "Call" and ((callee(x) or "").endswith(("::eq", "::ne", "_eq", "_ne"))) and len(x.get("args") or []) >= 2:
+                for a in x["args"][:2]:
+                    if len({z["v"] for z in walk(a) if z.get("k") in ("VarRef", "UpvarRef") and z["v"] in pvars}) != 1:
+                        continue        # a comparison of a combination of both elements (their difference against zero) is another form
+                    for y in walk(a):
+                        mentions = any(z.get("k") in ("VarRef", "UpvarRef") and z["v"] in pvars for z in walk(y))
+                        if not mentions:
+                            continue
+                        if y.get("k") == "Call" and ((callee(y) or "").startswith("core::%s::<impl %s>::" % (fl, fl)) or (callee(y) or "").startswith("std::%s::<impl %s>::" % (fl, fl))
+                                                     or (callee(y) or "").startswith("core::ops::arith::")):
+                            return True
+                        if y.get("k") in ("Cast", "Binary") or (y.get("k") == "Unary" and y.get("op") == "Neg"):
+                            return True
+            if x.get("k") == "Binary" and x.get("op") in ("Eq", "Ne"):
+                for a in (x["l"], x["r"]):
+                    if len({z["v"] for z in walk(a) if z.get("k") in ("VarRef", "UpvarRef") and z["v"] in pvars}) != 1:
+                        continue
+                    for y in walk(a):
+                        if any(z.get("k") in ("VarRef", "UpvarRef") and z["v"] in pvars for z in walk(y)) and \
+                                ((y.get("k") == "Call" and (callee(y) or "").startswith(("core::%s::<impl %s>::" % (fl, fl), "std::%s::<impl %s>::" % (fl, fl)))) or y.get("k") == "Cast"):
+                            return True
+        return False
+
     def fields_of(self, e, env):
         """{(operand index, field)} for Array field reads in e, operands resolved through env"""
         out = set()
@@ -1357,6 +1392,9 @@ class EqEval:
                         if x.get("k") == "Call" and (callee(x) or "").startswith("core::iter::"):
                             names.add((callee(x) or "").rsplit("::", 1)[-1])
                 if names & set(LOSSY):
+                    return True if self.asg[f] else self.freevar(e)
+                if cal.endswith("::all") and len(args) > 1 and self._compares_transformed(args[1]):
+                    # the predicate compares a FUNCTION of the two elements (their magnitudes, rounded values, ..): implied by equality, not equivalent
                     return True if self.asg[f] else self.freevar(e)
                 if "zip" in names and not cal.endswith("::eq"):
                     # zip stops at the shorter side: a comparison of the common prefix.  The dimension vectors of two arrays may differ in
